@@ -620,6 +620,29 @@ theorem bridge_tile_then_read_table {α} [BEq α] (z : α) (Ms : List (Int × Im
   tileThenRead_eq_table z Ms R C tr tc full omitEmpty chan rs re cs ce asIdx
 
 
+/-- **Bridge (entry points, T4fi / T4fs).**  `Image.get_total_pixel_matrix` and `Segmentation.get_total_pixel_matrix` hand
+`row_start, row_end, column_start, column_end, as_indices` to `_iterate_indices_for_tiled_region` unchanged and in this order (the
+calls are regenerated; the gate `is_tiled` / `is_indexable_as_total_pixel_matrix` in front, the channel query of the segmentation
+and the hand-over of `output_shape` / `indices` behind are pinned).  The missing-frame flags are the ones the model's entry points
+use: both off for `Image` — so the regenerated test (T5g) refuses a TILED_SPARSE read iff the number of frames found differs from
+`v_frames · h_frames` —, both on for `Segmentation` — the test is never made, gaps read as zeros (`sparse_zero_fill`). -/
+theorem bridge_entry_point_forwarding (a b c d : Int) (ai : Bool) :
+    imageTpmCall a b c d ai = .ok (a, b, c, d, ai, false, false) ∧ segTpmCall a b c d ai = .ok (a, b, c, d, ai, true, true) ∧
+    (∀ (vf hf n : Int) (full : Bool), missingFrameTest true true vf hf n (orgString full) = .ok true) ∧
+    (∀ (vf hf n : Int) (full : Bool),
+      missingFrameTest false false vf hf n (orgString full) = .error .runtime ↔ (full = false ∧ n ≠ vf * hf)) := by
+  refine ⟨imageTpmCall_forwarding a b c d ai, segTpmCall_forwarding a b c d ai, ?_, ?_⟩
+  · intro vf hf n full
+    have h := (missingFrameTest_iff true true full vf hf n)
+    apply h.2
+    intro he
+    have := h.1.mp he
+    simp at this
+  · intro vf hf n full
+    rw [(missingFrameTest_iff false false full vf hf n).1]
+    cases full <;> simp
+
+
 end HdVerif.C04
 namespace HdVerif.Examples.C04
 open HdVerif HdVerif.Gen HdVerif.Tiling HdVerif.TilingLemmas HdVerif.C04
